@@ -98,6 +98,8 @@ func c17Run(rootMap map[string]Val, rootData Val, ops []c17Op, objs []map[string
 		case "push":
 			if o.obj >= 0 {
 				s.Push(objs[o.obj])
+			} else if len(o.m) == 0 {
+				s.Push(nil) // a scope obtained from the map pool
 			} else {
 				s.Push(goScope(o.m))
 			}
@@ -217,11 +219,16 @@ func c17S1(r *Rng) Val {
 		{K: "Name", V: VStr(Pick(r, []string{"", "ann", "bob"}))}, {K: "Age", V: VInt("int", int64(r.Intn(3)))},
 		{K: "Plain", V: VStr(Pick(r, []string{"p", "q"}))}, {K: "hidden", V: VStr("H")}, {K: "Skip", V: VInt("int", 9)}, {K: "sec", V: VInt("int", 5)}}}
 }
+func c17S3(r *Rng) Val {
+	return Val{K: "struct", T: "S3", M: []KV{{K: "Label", V: VStr(Pick(r, []string{"the-label", "L"}))}, {K: "Name", V: VStr(Pick(r, []string{"the-name", ""}))}, {K: "Code", V: VInt("int", int64(r.Intn(3)))}}}
+}
 func c17Value(r *Rng, depth int) Val {
 	if depth <= 0 {
 		return c17Scalar(r)
 	}
-	switch r.Intn(12) {
+	switch r.Intn(13) {
+	case 12:
+		return c17S3(r)
 	case 0, 1:
 		n := r.Intn(4)
 		xs := []Val{}
@@ -377,6 +384,7 @@ func c17Paths(r *Rng, root string, v Val, depth int) []string {
 }
 
 func runC17(r *Run) {
+	c17GoIndexing(r)
 	r.Imports = []string{"Base.Val", "Model.Stack"}
 	r.Rule("histories of Stack operations (Push fresh / reused caller map, Pop, Set, Lookup, Resolve, EnvMap, Copy+switch, ForEach, GetString/Int/Slice/Map) " +
 		"with map, struct, pointer, nil-pointer, map and slice root data; exhaustive over a 7-letter mutating alphabet up to length 4 (thorough 5) with every name observed after every step, " +
@@ -403,7 +411,10 @@ func runC17(r *Run) {
 			return VList("", VStr("e0"), VStr("e1"))
 		}
 	}
+	var wantObjs []map[string]Val // expected final contents of the caller-owned maps of the next emit (nil = not tracked)
 	emit := func(stream string, rootMap map[string]Val, rootData Val, ops []c17Op, objs []map[string]any, nontrivial bool, tags map[string]string) {
+		want := wantObjs
+		wantObjs = nil
 		rootData = rootData.Normalize()
 		// direct oracle (no model): the merged environment agrees with Lookup for every name of the universe
 		agree := func(s *vuego.Stack, env map[string]any) {
@@ -439,6 +450,18 @@ func runC17(r *Run) {
 			}
 		}
 		impl, pan := c17Run(rootMap, rootData, ops, objs, agree)
+		for i := range want {
+			if i < len(objs) {
+				kvs := []KV{}
+				for k, v := range want[i] {
+					kvs = append(kvs, KV{K: k, V: v})
+				}
+				if got, exp := FromGo(objs[i]).Obs().Show(), VMap(kvs...).Obs().Show(); got != exp {
+					r.Fail("a Stack operation other than Set on the top scope modified a caller-owned map", map[string]string{"oracle": "caller-map-untouched"},
+						map[string]any{"root_map": descScope(rootMap), "root_data": rootData.Desc(), "ops": descOps(ops), "caller_map_now": got, "caller_map_expected": exp})
+				}
+			}
+		}
 		if pan != "" {
 			r.Fail("panic escapes a Stack operation", map[string]string{"stream": stream, "panic": "true"},
 				map[string]any{"root_map": descScope(rootMap), "root_data": rootData.Desc(), "ops": descOps(ops), "panic": pan})
@@ -545,6 +568,7 @@ func runC17(r *Run) {
 					}
 				}
 				tags := map[string]string{}
+				wantObjs = []map[string]Val{objModel}
 				emit("stack-exhaustive", rootMap, rootData, ops, []map[string]any{obj}, nPush > 0 && (nPop > 0 || strings.Contains(strings.Join(prefix, ","), "set")), tags)
 				count++
 			}
@@ -558,6 +582,11 @@ func runC17(r *Run) {
 	}
 	rec(nil)
 	r.extra["exhaustive_histories"] = count
+	// (1b) histories that first pop the root scope (underflow), then every sequence over a reduced alphabet
+	alphabet = []string{"pushObj", "pushNil", "pop", "setA"}
+	maxLen++
+	rec([]string{"pop"})
+	r.extra["exhaustive_histories_after_root_pop"] = count - r.extra["exhaustive_histories"].(int)
 	r.extra["exhaustive_max_len"] = maxLen
 
 	// (2) random long histories with nested values and paths
@@ -672,4 +701,65 @@ func descOps(ops []c17Op) []any {
 		out = append(out, o.Desc())
 	}
 	return out
+}
+
+// ---- hand-written Go values: path resolution must reach what ordinary Go indexing reaches ----
+type c17Base struct {
+	ID    int
+	Title string `json:"title"`
+}
+type c17Doc struct {
+	c17Base
+	Exported c17Base
+	Name     string
+	Label    string `json:"Name2"`
+	Name2    string
+	Tags     []string
+	Meta     map[string]any
+	Next     *c17Doc
+	Arr      [2]int
+	Grid     [][]int
+	ByName   map[string]*c17Doc
+	hidden   int
+}
+type C17Pub struct{ ID int }
+type c17Emb struct {
+	C17Pub
+	Name string
+}
+
+func c17GoIndexing(r *Run) {
+	leaf := &c17Doc{Name: "leaf", Tags: []string{"x"}}
+	doc := c17Doc{c17Base: c17Base{ID: 7, Title: "t"}, Exported: c17Base{ID: 8, Title: "u"}, Name: "the-name", Label: "the-label", Name2: "second",
+		Tags: []string{"a", "b", "c"}, Meta: map[string]any{"k": 1, "nested": map[string]any{"deep": []any{"d0", "d1"}}, "nilv": nil},
+		Next: leaf, Arr: [2]int{4, 5}, Grid: [][]int{{1, 2}, {3}}, ByName: map[string]*c17Doc{"leaf": leaf, "nil": nil}, hidden: 3}
+	emb := c17Emb{C17Pub: C17Pub{ID: 9}, Name: "e"}
+	st := vuego.NewStackWithData(map[string]any{"doc": doc, "pdoc": &doc, "emb": emb, "list": []any{doc, &doc}}, doc)
+	type chk struct {
+		path string
+		want any
+		ok   bool
+	}
+	checks := []chk{
+		{"doc.Name", doc.Name, true}, {"doc.Name2", doc.Name2, true}, {"doc.Label", doc.Label, true},
+		{"doc.Exported.ID", doc.Exported.ID, true}, {"doc.Exported.title", doc.Exported.Title, true}, {"doc.Exported.Title", doc.Exported.Title, true},
+		{"emb.ID", emb.ID, true}, {"emb.C17Pub.ID", emb.C17Pub.ID, true}, {"emb.Name", emb.Name, true},
+		{"doc.Tags.0", doc.Tags[0], true}, {"doc.Tags[2]", doc.Tags[2], true}, {"doc.Tags.3", nil, false}, {"doc.Tags.-1", nil, false},
+		{"doc.Arr.1", doc.Arr[1], true}, {"doc.Arr.2", nil, false}, {"doc.Grid.0.1", doc.Grid[0][1], true}, {"doc.Grid[1][0]", doc.Grid[1][0], true}, {"doc.Grid.1.1", nil, false},
+		{"doc.Meta.k", doc.Meta["k"], true}, {"doc.Meta.nested.deep.1", "d1", true}, {"doc.Meta.missing", nil, false}, {"doc.Meta.nested.deep.2", nil, false},
+		{"doc.Next.Name", doc.Next.Name, true}, {"doc.Next.Tags.0", doc.Next.Tags[0], true}, {"doc.Next.Next.Name", nil, false},
+		{"doc.ByName.leaf.Name", leaf.Name, true}, {"doc.ByName.nil.Name", nil, false}, {"doc.ByName.zz.Name", nil, false},
+		{"doc.hidden", nil, false}, {"pdoc.Name", doc.Name, true}, {"pdoc.Next.Name", leaf.Name, true}, {"pdoc.hidden", nil, false},
+		{"list.0.Name", doc.Name, true}, {"list.1.Name2", doc.Name2, true}, {"list.2.Name", nil, false},
+		{"Name", doc.Name, true}, {"Name2", doc.Name2, true}, {"Tags.1", doc.Tags[1], true}, {"Next.Name", leaf.Name, true}, {"hidden", nil, false},
+	}
+	for _, c := range checks {
+		got, ok := st.Resolve(c.path)
+		r.Eval("goindex:"+c.path, true, nil)
+		r.Count("stream:go-indexing(oracle only)")
+		if ok != c.ok || (ok && fmt.Sprint(got) != fmt.Sprint(c.want)) {
+			r.Fail("path resolution differs from ordinary Go indexing", map[string]string{"oracle": "go-indexing", "path": c.path},
+				map[string]any{"path": c.path, "resolve": fmt.Sprintf("(%v, %v)", got, ok), "go": fmt.Sprintf("(%v, %v)", c.want, c.ok)})
+		}
+	}
 }
